@@ -55,6 +55,18 @@ func TestFaceScope(t *testing.T) {
 	}
 	v4 := []string{"127.0.0.1", "127.0.0.2", "127.255.255.254", "10.0.0.1", "192.168.1.7", "172.16.0.9", "8.8.8.8", "126.255.255.255", "128.0.0.1", "169.254.1.1", "1.0.0.127"}
 	v6 := []string{"::1", "2001:db8::1", "fe80::1", "fd00::127", "::2", "::ffff:10.0.0.1"}
+	// zoned link-local addresses (on-link neighbours), on every interface that has a link-local address of its own
+	if ifs, err := net.Interfaces(); err == nil {
+		for _, ifc := range ifs {
+			addrs, _ := ifc.Addrs()
+			for _, a := range addrs {
+				if ipn, ok := a.(*net.IPNet); ok && ipn.IP.To4() == nil && ipn.IP.IsLinkLocalUnicast() {
+					v6 = append(v6, "fe80::1%"+ifc.Name, "fe80::abcd:1234%"+ifc.Name)
+					break
+				}
+			}
+		}
+	}
 	for ver, hosts := range map[int][]string{4: v4, 6: v6} {
 		for _, hst := range hosts {
 			for _, port := range []uint16{6363, 1, 65535} {
